@@ -179,7 +179,8 @@ def is_deref_of(e, lid):
 
 def rule_p(F):
     res = []
-    fn = F.fn("vm::Vm::_run")
+    from rules.c10 import dispatch_fn as _dispatch_fn
+    fn = _dispatch_fn(F)
     ip_id = None
     for p in fn.hir["params"]:
         if p.get("k") == "bind" and p.get("ty", "").replace(" ", "") == "&mutusize":
@@ -280,7 +281,8 @@ def rule_p(F):
 
 def rule_c(F):
     res = []
-    run = F.fn("vm::Vm::_run")
+    from rules.c10 import dispatch_fn as _dispatch_fn
+    run = _dispatch_fn(F)
     ip_id = [p["id"] for p in run.hir["params"] if p.get("k") == "bind" and p.get("ty", "").replace(" ", "") == "&mutusize"][0]
     bl, inc = find_block_with_increment(run.hir["body"], ip_id)
     start_locals = set()
@@ -475,7 +477,8 @@ def rule_f(F):
     stack, the push of a trace entry may only be conditional on the lookup of that frame's call position in
     program.trace succeeding; the loop body has no `continue`, `break` or `return`, and no other condition."""
     res = []
-    run = F.fn("vm::Vm::_run")
+    from rules.c10 import dispatch_fn as _dispatch_fn
+    run = _dispatch_fn(F)
     loops = []
     for x in hir_walk(run.hir["body"]):
         if x.get("k") == "match" and str(x.get("source", "")).startswith("ForLoopDesugar"):
@@ -541,7 +544,60 @@ def rule_f(F):
     return res
 
 
+def rule_r(F):
+    """C15.R: a failure inside a script function that a host function called back into keeps its location. The nested
+    interpreter loop hands back an ExecutionError {payload, trace}; wherever the re-entry point (Vm::run_function and its
+    helpers) turns that into its own error type, the trace must go along. A projection to `.payload` alone drops the failing
+    card: the outer loop then locates the error at the native's call card."""
+    from cao.facts import DefUse, callee_names
+    from cao import mirutil as mu
+    from rules.c10 import dispatch_fn as _dispatch_fn
+    res = []
+    loop = _dispatch_fn(F)
+    # callers of the interpreter loop other than Vm::run (transitively inside impl Vm)
+    reentry = []
+    for g in F.fns:
+        if not g.mir or g.is_closure or not g.short.startswith("vm::Vm::") or g.short == "vm::Vm::run" or g is loop:
+            continue
+        if any(loop.short in callee_names(t["func"]) or "vm::Vm::_run" in callee_names(t["func"]) for _bi, t in mu.calls(g)):
+            reentry.append(g)
+    from cao.facts import CallGraph
+    from_rf = CallGraph(F).reach("vm::Vm::run_function")
+    n = 0
+    for g in reentry:
+        if g.short == "vm::Vm::_run":
+            continue
+        for c in F.closures_of.get(g.short, []):
+            if not c.mir:
+                continue
+            reads = set()
+            for b in c.blocks:
+                for st in b["stmts"]:
+                    if st["k"] != "assign":
+                        continue
+                    from cao.facts import rvalue_places
+                    for pl in rvalue_places(st["rv"]):
+                        for e_ in pl["p"]:
+                            if e_["k"] == "field" and short(e_.get("owner", "")).endswith("ExecutionError"):
+                                reads.add(e_["name"])
+            if "payload" not in reads:
+                continue
+            n += 1
+            key = "C15/R/%s/callback-error-keeps-its-location" % ("run_function" if g.short in from_rf else g.name)
+            if "trace" in reads:
+                res.append(ok("C15.R", key, c.loc(), "the nested error's trace is carried along with its payload"))
+            else:
+                res.append(bad("C15.R", key, c.loc(),
+                               "%s keeps only the payload of the error the nested interpreter loop returned and drops its trace: a failure "
+                               "inside a script function called back by a host function (a key function of std.sorted, any callback of a native) "
+                               "is located at the native's call card, trace[0] is not the failing card" % g.name))
+    if n == 0:
+        res.append(note("C15.R", "C15/R/no-projection-found", "", "no re-entry point projects an ExecutionError to its payload"))
+    return res
+
+
 RULES = [
+    Rule("C15.R", rule_r, 0, "a failure inside a callback keeps its location"),
     Rule("C15.I", rule_i, 40, "compiler child numbering equals Card::get_child for every card kind"),
     Rule("C15.P", rule_p, 50, "runtime errors are located at the failing instruction's opcode position"),
     Rule("C15.C", rule_c, 4, "call frames record the CallFunction opcode position"),
